@@ -474,7 +474,7 @@ func (e *Engine) checkReturn(ex Exit, fr *Frame, fn *ssa.Function, c *Contract, 
 				st2 := st.fork()
 				env2 := *env
 				env2.st = st2
-				a := substitute(env2.boolTerm(ce.Args[0]), st2.subst)
+				a := st2.sub(env2.boolTerm(ce.Args[0]))
 				if knownFalse(st2, a) {
 					e.addObligation(st2, fr, "ensures", strconv.Itoa(i), tTrue, en.Text)
 					continue
@@ -601,7 +601,7 @@ func (e *Engine) checkFrame(st *State, fr *Frame, fn *ssa.Function, c *Contract,
 		ot, ok2 := ov.(*Term)
 		label := reg.name + "@" + k
 		if ok1 && ok2 && nt.Sort != SArr {
-			e.addObligation(st, fr, "frame", label, mkEq(substitute(nt, st.subst), ot), "cell outside `modifies` is unchanged: "+label)
+			e.addObligation(st, fr, "frame", label, mkEq(st.sub(nt), ot), "cell outside `modifies` is unchanged: "+label)
 		} else {
 			e.addObligation(st, fr, "frame", label, tFalse, "cell outside `modifies` was written: "+label)
 		}
@@ -801,7 +801,7 @@ func (e *Engine) tryLemma(st *State, env *SpecEnv, u *Clause) {
 func (e *Engine) ensuresObligation(st *State, fr *Frame, env *SpecEnv, en *Clause, i int) {
 	if ce, ok := en.Expr.(*ast.CallExpr); ok {
 		if id, ok := ce.Fun.(*ast.Ident); ok && id.Name == "implies" {
-			a := substitute(env.boolTerm(ce.Args[0]), st.subst)
+			a := st.sub(env.boolTerm(ce.Args[0]))
 			if knownFalse(st, a) {
 				e.addObligation(st, fr, "ensures", strconv.Itoa(i), tTrue, en.Text)
 				return
